@@ -253,6 +253,89 @@ def check_call(p, name, base0, other, call, depth_tag=""):
     return base
 
 
+HIST_SRC = """
+def output_functions(c, ins):
+    import itertools
+    rows = []
+    for x in itertools.product((False, True), repeat=len(ins)):
+        a = dict(zip(ins, x))
+        a.update({i: False for i in c.inputs if i not in a})
+        rows.append(c.evaluate_circuit(a))
+    return rows
+
+
+def history(kind, base, other, call):
+    # Returns a list of problems for one composition history (empty = fine).
+    import copy
+    from vlib import circ
+    from cirbo.core.circuit.exceptions import CircuitError
+    bad = []
+    if kind == 'copy-then-rename':
+        do_call(base, other, call)
+        before = circ.snapshot(base)
+        cp = copy.copy(base)
+        blk = cp.get_block(call['name'])
+        victims = [g for g in blk.gates if g in cp.gates]
+        if victims:
+            cp.rename_gate(victims[0], 'renamed_in_the_copy')
+        if circ.snapshot(base) != before:
+            bad.append('renaming a gate in a copy changed the original (shared block lists)')
+        try:
+            base.get_block(call['name']).into_circuit()
+        except Exception as e:
+            bad.append('block of the original can no longer be extracted: ' + type(e).__name__)
+    elif kind == 'block-dropped-then-same-name':
+        do_call(base, other, call)
+        base.delete_block(call['name'])
+        ins, outs = list(base.inputs), list(base.outputs)
+        ref = output_functions(base, ins)
+        try:
+            do_call(base, other, call)
+        except CircuitError:
+            return bad  # documented rejection of the clashing labels
+        bad += circ.wf_problems(base)
+        if not bad:
+            now = output_functions(base, ins)
+            for o in outs:
+                if o in base.gates and any(r[o] is not n[o] for r, n in zip(ref, now)):
+                    bad.append('an output that was there before now computes another function: ' + o)
+                    break
+    elif kind == 'block-of-live-lists':
+        try:
+            base.make_block_from_slice('backup', base.inputs, base.outputs)
+        except CircuitError:
+            return bad
+        b = base.get_block('backup')
+        before = (list(b.inputs), list(b.gates), list(b.outputs))
+        do_call(base, other, call)
+        b = base.get_block('backup')
+        if (list(b.inputs), list(b.gates), list(b.outputs)) != before:
+            bad.append('a block made from the circuit own input/output lists changed when another circuit was attached')
+    return bad
+"""
+exec(HIST_SRC)  # defines history  # noqa: S102
+
+
+def check_history(p, name, kind, base0, other, call):
+    from cirbo.core.circuit.exceptions import CircuitError
+
+    base = rebuild(base0)
+    p.case(("compose-history", kind, circ.snapshot(base0)[:3], circ.snapshot(other)[:3], repr(sorted(call.items()))),
+           sample=f"{name}: history {kind} with {call}" if len(p.samples) < 6 else None)
+    try:
+        bad = history(kind, base, other, call)  # noqa: F821
+    except CircuitError:
+        p.count("rejected_calls")
+        return
+    except Exception as e:  # noqa: BLE001
+        bad = [f"raised {type(e).__name__}: {e}"]
+    if bad:
+        p.violation(f"compose:history:{kind}:{bad[0].split(' ')[0][:24]}", f"{kind} with {call}: {bad[:2]} | base {circ.describe(base0)} | other {circ.describe(other)}",
+                    REPLAY_PRELUDE + circ.circ_src(base0, "base") + "\n" + circ.circ_src(other, "other") + "\n" + CALL_SRC + HIST_SRC +
+                    f"\ncall={call!r}\ntry:\n    bad=history({kind!r}, base, other, call)\nexcept Exception as e:\n    from cirbo.core.circuit.exceptions import CircuitError\n"
+                    "    bad=[] if isinstance(e, CircuitError) else [repr(e)]\nprint(bad)\nsys.exit(1 if bad else 0)\n")
+
+
 def gen_calls(rnd, base, other, n):
     calls = []
     for _ in range(n):
@@ -321,6 +404,11 @@ def unit(p, item, tier, seed):
             circgen.add_random_blocks(other, rnd, 1)
         for call in gen_calls(rnd, base, other, 6):
             res = check_call(p, f"seeded[{s}:{i}]", base, other, call)
+            if res is not None:
+                if call["name"]:
+                    check_history(p, f"seeded[{s}:{i}]", "copy-then-rename", base, other, call)
+                    check_history(p, f"seeded[{s}:{i}]", "block-dropped-then-same-name", base, other, call)
+                check_history(p, f"seeded[{s}:{i}]", "block-of-live-lists", base, other, call)
             if res is not None and rnd.random() < 0.5:
                 # repeated composition (depth 2) on the result
                 third = circgen.random_circuit(rnd, rnd.randint(1, 2), rnd.randint(1, 3), max_arity=2,
